@@ -108,7 +108,7 @@ CLAIMED = {
  "C17": dict(
    technique="differential property-based testing: the same valid / single-fault document through json.Unmarshal and yaml.Unmarshal (flow and block style) of compiled generated code",
    engine="E-run",
-   text="Programs generated with --extra-imports decode each valid or single-fault document (exactly one required/bound/length/pattern/string-enum rule) as JSON, as the same text read as YAML, and as a block-style YAML rendering verified with a second YAML parser; verdicts and re-marshalled values (defaults included) must be equal.",
+   text="Programs generated with --extra-imports decode each valid or single-fault document (exactly one required/bound/length/pattern/string-enum rule) as JSON, as the same text read as YAML, and as a block-style YAML rendering verified with a second YAML parser; verdicts and re-marshalled values (defaults included) must be equal; format probes (texts at the edge of each stated format's notation) are judged by the same relation.",
    note="Type violations are outside the statement's list (yaml.v3 coerces scalars).",
    design="4 C17"),
  "C18": dict(
@@ -124,7 +124,7 @@ CLAIMED = {
    note="Open finding: null input panics for structs with typed additionalProperties (that input is excluded for such types).",
    design="4 C19"),
  "C20": dict(
-   technique="property-based testing over multi-file cases x mappings x argument orders; stateful DoFile histories; AST placement oracle, go/types across packages, go build sample",
+   technique="property-based testing over multi-file cases x mappings x argument orders; stateful DoFile histories; AST placement oracle, go/types across packages, go build sample; name-independent marker scenario (every marked root/definition emitted exactly once, in the output mapped to its id)",
    engine="E-static + go build",
    text="1-4 files with ids, cross-file references and package/output/root-type mappings: every schema's root type and definitions must be declared once and only in the file mapped to its id, under the right package clause, all packages must type-check together (sample: go build of the emitted tree), and the declarations belonging to a schema must be identical under argument permutations, with an unrelated extra file, and across DoFile histories on one Generator.",
    note="No reference cycles across packages; ids with a package mapping also get an output mapping. Open finding: two imported packages with the same last path element collide (pool without equal last elements).",
